@@ -73,30 +73,37 @@ def tlc_programs(ctx, slice_, *, cover=None, timeout=600, simulate=None, depth=N
         kw.update(simulate=simulate, depth=depth, seed=seed, workers=1)
         cfg = 'SynthGraphGen_sim.cfg'
     else:
-        kw.update(workers=workers or NCPU, coverage=bool(cover))
+        kw.update(workers=workers or NCPU, coverage=False)
         cfg = module + '.cfg'
     r = tlc.run(module, cfg, wd, **kw)
     shutil.rmtree(wd, ignore_errors=True)
+    ctx.expect_ok(r, 'SynthGraphGen %s' % label)
+    progs = []
+    seen = set()
+    taken = {}
+    for line in r.output.splitlines():
+        if line.startswith('<<"PROG"'):
+            v = tlc.parse_value(line.strip())
+            js = v[1]
+            if js in seen:
+                continue
+            seen.add(js)
+            rec = json.loads(js)
+            progs.append(rec['p'])
+            for a_ in rec.get('acts') or []:        # generator actions on the path to this program
+                taken[a_] = taken.get(a_, 0) + 1
     run = dict(module=module, cfg=cfg, label=label, **r.summary())
     if cover:
-        run['actions_taken'] = {k: v[0] for k, v in sorted(r.coverage.items()) if k in cover}
+        # vacuity guard without -coverage (its cost model takes ~40 s to build for this spec): the generator keeps
+        # the set of action names it has taken in the state and prints it with every finished program
+        run['actions_taken'] = {k: taken.get(k, 0) for k in cover}
     with _lock:
         ctx.cov['model_runs'].append(run)
         ctx.cov['states'] += r.distinct
         ctx.cov['transitions'] += r.generated
-    for a in cover:
-        if r.coverage.get(a, (0, 0))[1] == 0:
-            raise MachineryError('vacuity: action %s never taken in SynthGraphGen/%s' % (a, slice_))
-    ctx.expect_ok(r, 'SynthGraphGen %s' % label)
-    progs = []
-    seen = set()
-    for line in r.output.splitlines():
-        if line.startswith('<<"PROG"'):
-            js = tlc.parse_value(line.strip())[1]
-            if js in seen:
-                continue
-            seen.add(js)
-            progs.append(json.loads(js))
+    for a_ in cover:
+        if not taken.get(a_):
+            raise MachineryError('vacuity: action %s never taken in %s/%s' % (a_, module, slice_))
     if not progs and module == 'SynthGraphGen':
         raise MachineryError('slice %s produced no programs' % slice_)
     return progs
